@@ -572,3 +572,76 @@ def run_c18() -> int:
     chk.traces += len(vitems2)
     chk.exhaustive = True
     return chk.finish()
+
+
+# ------------------------------------------------------------------------------------------------
+# Wiring.tla: what set_design / find_design forward to the search class (used by C20, C13, C17)
+# ------------------------------------------------------------------------------------------------
+def wiring(chk: Check):
+    from types import SimpleNamespace  # noqa: PLC0415
+
+    cfg = "INIT Init\nNEXT Next\nCHECK_DEADLOCK FALSE\nINVARIANT Forwarded\nINVARIANT DesignHolds\nINVARIANT Emit\n"
+    res = run_tlc("Wiring", cfg, workers=1)
+    chk.add_tlc(res)
+    if res.violated:
+        chk.violation(f"Wiring.tla invariant {res.violated} violated", {})
+        return
+    require_tlc_ok(res, "Wiring")
+    cases = res.prints
+    if len(cases) != 12:
+        raise MachineryError(f"Wiring: {len(cases)} cases")
+    import_repo()
+    import ghedesigner.design as gd  # noqa: PLC0415
+    from ghedesigner.enums import FlowConfigType, TimestepType  # noqa: PLC0415
+
+    rnd = random.Random(1)
+    for c in cases:
+        cfgc = {"method": c["geom"], "perimeter": True, "pipe": "SINGLEUTUBE", "fluid": "WATER", "flow": c["flow"], "maxbh": False, "cont": False}
+        with contextlib.redirect_stdout(io.StringIO()), contextlib.redirect_stderr(io.StringIO()):
+            m = build_manager(cfgc, rnd, loads=profile(3000.0), small=True)
+        d = m._design
+        want_flow = FlowConfigType.SYSTEM if c["flow"] == "SYSTEM" else FlowConfigType.BOREHOLE
+        user = {"flow_rate": d.V_flow, "flow_type": want_flow, "borehole": m._borehole, "pipe_type": m.pipe_type, "fluid": m._fluid, "pipe": m._pipe, "grout": m._grout,
+                "soil": m._soil, "sim_params": m._simulation_parameters, "loads": m._ground_loads, "geometry": m._geometric_constraints}
+        got = {"flow_type": d.flow_type, "borehole": d.borehole, "pipe_type": d.bhe_type, "fluid": d.fluid, "pipe": d.pipe, "grout": d.grout, "soil": d.soil,
+               "sim_params": d.sim_params, "loads": d.hourly_extraction_ground_loads, "geometry": d.geometric_constraints}
+        for k, v in got.items():
+            if v is not user[k] and v != user[k]:
+                chk.violation(f"set_design for {c['geom']} with flow type {c['flow']}: the design object's {k} is not what the user set ({v!r})", {"case": c, "slot": k})
+        if d.method != TimestepType.HYBRID:
+            chk.violation(f"set_design for {c['geom']}: time-step method {d.method}", {"case": c})
+        # find_design: capture what the search class is constructed with
+        captured = {}
+        names = ["Bisection1D", "Bisection2D", "BisectionZD", "RowWiseModifiedBisectionSearch"]
+        real = {n: getattr(gd, n) for n in names}
+
+        def make(nm):
+            def ctor(*a, **kw):
+                captured["cls"] = nm
+                captured["a"] = a
+                captured["kw"] = kw
+                return SimpleNamespace()
+            return ctor
+
+        for n in names:
+            setattr(gd, n, make(n))
+        try:
+            d.find_design()
+        finally:
+            for n in names:
+                setattr(gd, n, real[n])
+        if captured.get("cls") != c["cls"]:
+            chk.violation(f"find_design for {c['geom']} constructs {captured.get('cls')}, model {c['cls']}", {"case": c})
+            continue
+        vals = list(captured["a"]) + list(captured["kw"].values())
+        for k in ("borehole", "pipe_type", "fluid", "pipe", "grout", "soil", "sim_params", "loads"):
+            if not any(v is user[k] for v in vals):
+                chk.violation(f"find_design for {c['geom']}: the search is not given the user's {k}", {"case": c, "slot": k})
+        if captured["kw"].get("flow_type") != want_flow:
+            chk.violation(f"find_design for {c['geom']} with flow type {c['flow']}: the search gets flow_type {captured['kw'].get('flow_type')}", {"case": c})
+        if captured["kw"].get("method") != TimestepType.HYBRID:
+            chk.violation(f"find_design for {c['geom']}: the search gets method {captured['kw'].get('method')}", {"case": c})
+        if not any(isinstance(v, float) and v == d.V_flow for v in vals):
+            chk.violation(f"find_design for {c['geom']}: the search is not given the design flow rate", {"case": c})
+    chk.traces += len(cases)
+    chk.note("wiring_cases_replayed", len(cases))
